@@ -377,6 +377,17 @@ class SymList:
     def popleft(self):
         return self.pop(0)
 
+    def __delitem__(self, i):
+        # `del seq[i]` (additive): the element at index i is taken out, the rest keeps its order
+        if isinstance(i, slice):
+            raise OutOfReach("del of a slice of a symbolic sequence")
+        s = self.term
+        n = self._len()
+        it = self._norm_index(i)
+        if not _c().branch(z3.And(it >= 0, it < n), site="idx"):
+            raise IndexError("list assignment index out of range (symbolic)")
+        self._loc.set(z3.simplify(z3.Concat(z3.Extract(s, 0, it), z3.Extract(s, it + 1, n - it - 1))))
+
     def clear(self):
         self._loc.set(z3.Empty(z3.SeqSort(self._elem.sort())))
 
